@@ -26,7 +26,9 @@ def build(ck):
     exe = B.build_harness("h_c19", SCHED_SRC, profile="plain", with_stem=False, wraps=[], cflags=INC, ldflags=["-rdynamic"])
     free = B.build_harness("h_c19_free", FREE_SRC, profile="tsan", with_stem=False, wraps=[], cflags=INC + ["-DC19_FREE"],
                            ldflags=["-rdynamic"])
-    return {"h_c19": exe, "h_c19_free": free}
+    # whole-path run for heart_beat_flag: the real backend() loop (driver booted by hx) under ThreadSanitizer
+    hb = ck.harness("h_c19_hb", ["h/h_c19_hb.c", "wrap/w_backend_c19.c"], profile="tsan", replace_stem=["backend.c"])
+    return {"h_c19": exe, "h_c19_free": free, "h_c19_hb": hb}
 
 
 RULE = ("every schedule with at most P preemptions (P = budget; switches forced by blocking, yielding or thread exit are free) of: "
@@ -52,8 +54,9 @@ ASSUME = [
     "the eventfd, epoll instance and console pipe are the real kernel objects; the console's stdin is a pipe (console type PIPE)",
     "the free-running ThreadSanitizer pass is a fixed-iteration race-detector run; its ordering oracles are counted but never decide; worker script 2 is "
     "left out of that pass because it genuinely hangs when run natively (see finding C19:worker:hang:main-in-async_worker_join(20)-before-stop)",
-    "heart_beat_flag of src/backend.c is exercised only through the same pattern in the timer body (callback sets a flag and calls async_runtime_wakeup); "
-    "the whole-driver backend() loop is not run under ThreadSanitizer here",
+    "heart_beat_flag: the real backend() loop is run free under ThreadSanitizer with the compile-time heart-beat period lowered from 2 s to 500 us "
+    "(wrapper TU) and the users table pre-allocated as after a first connection (on an idle driver the first timer wake-up dereferences all_users == NULL "
+    "in process_io(), a C09 finding, which would end the run at once); in the scheduler runs the same pattern is the timer body's script 3",
 ]
 
 
@@ -80,7 +83,7 @@ def _tsan_confirm(ck, orig):
 
 def run(ck):
     exes = build(ck)
-    exe, free = exes["h_c19"], exes["h_c19_free"]
+    exe, free, hb = exes["h_c19"], exes["h_c19_free"], exes["h_c19_hb"]
     ck.confirm = _tsan_confirm(ck, ck.confirm)
     if ck.tier == "quick":
         P, dl, iters = 2, 150, 300
@@ -94,6 +97,8 @@ def run(ck):
     sched_parts = list(ck.parts)
     ck.enum(free, ["--iters=%d" % iters], "tsan", batch=1, deadline_s=dl, timeout_ms=180000, rotate=0)
     tsan = ck.parts[-1] if len(ck.parts) > len(sched_parts) else {}
+    ck.enum(hb, ["--iters=%d" % iters], "tsan-backend", batch=1, deadline_s=dl, timeout_ms=180000, rotate=0)
+    tsb = ck.parts[-1] if ck.parts and ck.parts[-1].get("part") == "tsan-backend" else {}
     extra = {
         "preemption_bound": {p["part"]: p.get("budget_completed") for p in sched_parts},
         "schedules_per_body": {p["part"]: p.get("executions") for p in sched_parts},
@@ -103,6 +108,9 @@ def run(ck):
                       "iterations_total": tsan.get("counters", {}).get("free_running_iterations"),
                       "ordering_oracle_hits_not_deciding": tsan.get("counters", {}).get("free_running_oracle_hits_not_deciding"),
                       "race_keys": sorted(k for k in tsan.get("fail_keys", {}) if k.startswith("tsan:"))},
+        "tsan_backend_pass": {"what": "real backend() loop with a 500 us heart-beat timer (wrap/w_backend_c19.c changes only HEARTBEAT_INTERVAL), one heart-beat object",
+                              "heart_beats": tsb.get("counters", {}).get("heart_beats"),
+                              "race_keys": sorted(k for k in tsb.get("fail_keys", {}) if k.startswith("tsan:"))},
     }
     ck.finish(vlib.mc_coverage(sched_parts, RULE, extra), assumptions=ASSUME)
 
